@@ -561,15 +561,16 @@ impl Word {
             }
         }
 
-        if self.americanist {
-            buffer.replace("t͡s", "¢")
-                  .replace("t͡ɬ",  "ƛ")
-                  .replace("d͡ɮ", "λ")
-                  .replace("ɬ",  "ł")
-                  .replace("ɲ",  "ñ")
-        } else {
-            buffer
-        }
+        if self.americanist { Self::americanise(buffer) } else { buffer }
+    }
+
+    /// the americanist spellings of the graphemes that have one
+    fn americanise(text: String) -> String {
+        text.replace("t͡s", "¢")
+            .replace("t͡ɬ",  "ƛ")
+            .replace("d͡ɮ", "λ")
+            .replace("ɬ",  "ł")
+            .replace("ɲ",  "ñ")
     }
 
     fn alias_match_node(&self, seg: Segment, node: NodeKind, val: &ModKind) -> bool {
@@ -781,12 +782,13 @@ impl Word {
                             match &alias.output.kind {
                                 AliasParseElement::Replacement(repl, plus) => {
                                     if *plus {
+                                        let normal = |seg: &Segment| if self.americanist { Self::americanise(seg.get_nearest_grapheme()) } else { seg.get_nearest_grapheme() };
                                         if !plus_match_len {
                                             for ind in back_pos..j {
-                                                buffer.push_str(&syll.segments[ind].get_nearest_grapheme());
+                                                buffer.push_str(&normal(&syll.segments[ind]));
                                             }
                                         } else {
-                                            buffer.push_str(&syll.segments[j-1].get_nearest_grapheme());
+                                            buffer.push_str(&normal(&syll.segments[j-1]));
                                         }
                                     } 
                                     buffer.push_str(repl);
@@ -801,7 +803,9 @@ impl Word {
 
                 }
 
-                buffer.push_str(&syll.segments[j].get_as_grapheme().unwrap_or("�".to_owned()));
+                // a segment no romaniser replaces is printed as without romanisers: in the notation the word was typed in
+                let grapheme = syll.segments[j].get_as_grapheme().unwrap_or("�".to_owned());
+                buffer.push_str(&if self.americanist { Self::americanise(grapheme) } else { grapheme });
                 j += 1;
             }
 
